@@ -9,6 +9,7 @@ mod refhash;
 mod c16;
 mod engine;
 mod hllm;
+mod c01;
 mod c02;
 mod spec_hll;
 mod c03;
@@ -17,6 +18,11 @@ mod c04;
 mod cpcm;
 mod c05;
 mod c06;
+mod fim;
+mod c07;
+mod tdm;
+mod c10;
+mod c15;
 mod cmm;
 mod c08;
 mod bloomm;
@@ -104,6 +110,10 @@ fn main() {
         "C08" => c08::run(&Ctx::new("C08", tier)),
         "C09" => c09::run(&Ctx::new("C09", tier)),
         "C18" => c18::run(&Ctx::new("C18", tier).reduced().with_filter(|k| k.contains(".size") || k.starts_with("panic|") || k.starts_with("fi.capacity"))),
+        "C01" => c01::run(&Ctx::new("C01", tier).reduced().with_filter(c01::filter)),
+        "C07" => c07::run(&Ctx::new("C07", tier).with_filter(|k| !k.starts_with("fi.roundtrip"))),
+        "C10" => c10::run(&Ctx::new("C10", tier)),
+        "C15" => c15::run(&Ctx::new("C15", tier)),
         "C06" => c06::run(&Ctx::new("C06", tier).with_filter(|k| !k.contains("cpc.bounds"))),
         "C05" => c05::run(&Ctx::new("C05", tier).with_filter(|k| !k.starts_with("cpc.bounds"))),
         "C04" => c04::run(&Ctx::new("C04", tier).with_filter(|k| !k.starts_with("theta.bounds"))),
